@@ -297,6 +297,13 @@ def run_structural(case):
 SETS = [[], ["_generated"], ["_source", "x"]]
 
 
+FORMS = {
+    "list": lambda names: list(names), "set": lambda names: set(names), "tuple": lambda names: tuple(names), "frozenset": lambda names: frozenset(names),
+    "generator": lambda names: (n for n in names), "iter": lambda names: iter(list(names)), "map": lambda names: map(str, names),
+    "dict_keys": lambda names: dict.fromkeys(names).keys(),
+}
+
+
 def run_scope(case):
     """events: ['set', i] | ['enter', i] | ['exit'] | ['exit-exc']  (well nested). Invariant after every event."""
     from flow.record import base
@@ -310,12 +317,13 @@ def run_scope(case):
         viol.append(("C12:scope:set:not-applied", case, {"step": -1, "got": sorted(base.IGNORE_FIELDS_FOR_COMPARISON), "want": []}))
     try:
         for i, ev in enumerate(case["events"]):
+            form = FORMS[case.get("form", "list")]
             if ev[0] == "set":
-                base.set_ignored_fields_for_comparison(SETS[ev[1]])
+                base.set_ignored_fields_for_comparison(form(SETS[ev[1]]))
                 want = set(SETS[ev[1]])
             elif ev[0] == "enter":
                 before = set(base.IGNORE_FIELDS_FOR_COMPARISON)
-                cm = base.ignore_fields_for_comparison(SETS[ev[1]])
+                cm = base.ignore_fields_for_comparison(form(SETS[ev[1]]))
                 cm.__enter__()
                 stack.append((cm, before))
                 want = set(SETS[ev[1]])
@@ -323,6 +331,15 @@ def run_scope(case):
                 cm, before = stack.pop()
                 if ev[0] == "exit":
                     cm.__exit__(None, None, None)
+                elif ev[0] in ("exit-kbd", "exit-genexit", "exit-sysexit"):
+                    # the body is left by an exception that is no Exception subclass (Ctrl-C, a generator closed early, sys.exit)
+                    kind = {"exit-kbd": KeyboardInterrupt, "exit-genexit": GeneratorExit, "exit-sysexit": SystemExit}[ev[0]]
+                    err = kind()
+                    try:
+                        cm.__exit__(kind, err, None)
+                    except BaseException as e:  # noqa: BLE001
+                        if e is not err:
+                            raise
                 else:
                     err = ValueError("body failed")
                     try:
@@ -361,6 +378,9 @@ def scope_histories(depth):
         if open_n:
             yield from rec(hist + [["exit"]], open_n - 1)
             yield from rec(hist + [["exit-exc"]], open_n - 1)
+            if len(hist) <= 2:
+                for e in ("exit-kbd", "exit-genexit", "exit-sysexit"):
+                    yield from rec(hist + [[e]], open_n - 1)
 
     yield from rec([], 0)
 
@@ -411,6 +431,10 @@ def cases(tier, seed):
             yield {"kind": "struct", "t": t, "v": v}
     for hist in scope_histories(6 if thorough else 5):
         yield {"kind": "scope", "events": hist}
+    for form in FORMS:
+        if form != "list":
+            for hist in scope_histories(3):
+                yield {"kind": "scope", "events": hist, "form": form}
     for ign in IGNORE_SETS:
         yield {"kind": "env", "ignore": ign}
 
